@@ -192,10 +192,16 @@ async fn one_round(ctx: &Ctx, out: &mut Outcome, rng: &mut Rng, idx: u64, root: 
     let resend = rng.chance(1, 6);
     let tiny_buffer = !resend && rng.chance(1, 5);
     let by_bytes = !resend && rng.chance(1, 4);
+    // one round in twelve at the sizes where encoders and batch splitters change behaviour: requests (and hence
+    // flushes) of exactly 1024 / 4096 / 8192 / 16384 / 24576 rows and their neighbours, thresholds to match
+    let boundary = !resend && !by_bytes && !tiny_buffer && rng.chance(1, 12);
+    if boundary {
+        out.count("rounds_with_power_of_two_sized_flushes", 1);
+    }
     let cfg = IngesterConfig {
         flush_interval: Duration::from_millis(*rng.pick(&[5u64, 20, 10_000])),
         // (now and then the degenerate thresholds: 0 / 1 rows, 0 bytes - every write is a flush)
-        flush_row_count: if by_bytes { 1_000_000 } else if resend { 2 + rng.usize(4) } else if rng.chance(1, 10) { rng.usize(2) } else { 2 + rng.usize(40) },
+        flush_row_count: if boundary { *rng.pick(&[1024usize, 4096, 8192, 16384]) } else if by_bytes { 1_000_000 } else if resend { 2 + rng.usize(4) } else if rng.chance(1, 10) { rng.usize(2) } else { 2 + rng.usize(40) },
         flush_size_bytes: if by_bytes { if rng.chance(1, 8) { 0 } else { 2_000 + rng.usize(20_000) } } else { 1 << 30 },
         batch_timeout: Duration::from_millis(5),
         batch_size_bytes: 1 << 20,
@@ -269,7 +275,7 @@ async fn one_round(ctx: &Ctx, out: &mut Outcome, rng: &mut Rng, idx: u64, root: 
     let timer = tokio::spawn(async move { ing_t.run_flush_timer().await });
 
     // writers
-    let nwriters = if resend { 1 } else { 1 + rng.usize(8) };
+    let nwriters = if resend || boundary { 1 } else { 1 + rng.usize(8) };
     let flush_rows_cfg = cfg_flush_rows;
     let mut next_id = (idx as i64) * 100_000;
     let base_ts: i64 = *rng.pick(&[0i64, 0, 1_700_000_000_000_000_000, 1_699_999_200_000_000_000, -86_400_000_000_000]);
@@ -279,14 +285,14 @@ async fn one_round(ctx: &Ctx, out: &mut Outcome, rng: &mut Rng, idx: u64, root: 
     let mut schema_kinds = std::collections::BTreeSet::new();
     let mut hs = vec![];
     for _w in 0..nwriters {
-        let nb = 2 + rng.usize(9);
+        let nb = if boundary { 2 + rng.usize(3) } else { 2 + rng.usize(9) };
         let mut plan = vec![];
         for _ in 0..nb {
             let kind = *rng.pick(&[SchemaKind::A, SchemaKind::A, SchemaKind::B, SchemaKind::T]);
             schema_kinds.insert(format!("{:?}", kind));
             let big = rng.chance(1, 6);
             // ("any row count >= 1": now and then a batch of a few thousand rows)
-            let k = if resend { flush_rows_cfg } else if rng.chance(1, 40) { 3000 + rng.usize(6000) } else { 1 + rng.usize(if big { 60 } else { 6 }) };
+            let k = if boundary { *rng.pick(&[1024usize, 4096, 8191, 8192, 8192, 8193, 16384, 16384, 24576]) } else if resend { flush_rows_cfg } else if rng.chance(1, 40) { 3000 + rng.usize(6000) } else { 1 + rng.usize(if big { 60 } else { 6 }) };
             let rows: Vec<RowSpec> = (0..k)
                 .map(|_| {
                     next_id += 1;
